@@ -2,6 +2,7 @@ package main
 
 import (
 	"fmt"
+	"go/constant"
 	"go/token"
 	"go/types"
 	"strings"
@@ -293,30 +294,78 @@ func init() {
 			}
 		}})
 
-	register(&Rule{ID: "C02.R6", Props: []string{"C02", "C11"}, Engine: "E3",
-		Title:   "a gap-filling chunk is accepted when the receive window is zero",
-		MinInst: 3,
+	register(&Rule{ID: "C02.R6", Props: []string{"C02", "C11"}, Engine: "E5b",
+		Title:   "a gap-filling chunk is accepted when the receive window is zero (decision table of acceptPayloadData by partial evaluation over credit ∈ {0,>0} × highest-TSN known ∈ {no,yes} × serial order of chunk.tsn vs highest TSN ∈ {before,equal,after}): the chunk is passed to its stream exactly when credit > 0, or the highest TSN is known and chunk.tsn is serially before it",
+		MinInst: 12,
 		Run: func(c *RuleCtx) {
 			acc := c.Fn("Association.acceptPayloadData")
 			pushTo := c.Fn("Association.pushPayloadDataToStream")
 			credit := c.Fn("Association.getMyReceiverWindowCredit")
-			lt := c.Fn("sna32LT")
 			tsn := c.field("chunkPayloadData", "tsn")
 			last := c.Fn("receivePayloadQueue.getLastTSNReceived")
-			nZero := 0
-			for _, pc := range callsIn(acc, pushTo) {
-				zero := DominatedByExt(pc, CmpCond(token.LEQ, IsCallOf(credit), IsConstInt(0)))
-				if !zero {
-					c.Dom("normal-accept-needs-credit", pc, CmpCond(token.GTR, IsCallOf(credit), IsConstInt(0)), "getMyReceiverWindowCredit() > 0")
-					continue
-				}
-				nZero++
-				c.Dom("zero-window-accept-is-gap-fill", pc, CallCond(lt, true, IsLoadOf(tsn), func(v ssa.Value) bool {
-					ex, ok := v.(*ssa.Extract)
-					return ok && ex.Index == 0 && IsCallOf(last)(ex.Tuple)
-				}), "sna32LT(chunk.tsn, lastTSNReceived)")
+			isLast := func(v ssa.Value) bool {
+				ex, ok := unconv(v).(*ssa.Extract)
+				return ok && ex.Index == 0 && IsCallOf(last)(ex.Tuple)
 			}
-			c.Check(nZero == 1, "zero-window-accept-exists", c.P.Pos(acc.Pos()), "a delivery path exists with zero credit", fmt.Sprintf("%d zero-credit delivery paths", nZero))
+			// the chunk's tsn may reach the comparison through a helper parameter
+			isTSN := func(v ssa.Value) bool { return IsLoadOf(tsn)(v) }
+			snaRel := map[string]func(r int) bool{ // r: -1 a before b, 0 equal, +1 a after b
+				"sna32LT": func(r int) bool { return r < 0 }, "sna32LTE": func(r int) bool { return r <= 0 },
+				"sna32GT": func(r int) bool { return r > 0 }, "sna32GTE": func(r int) bool { return r >= 0 },
+				"sna32EQ": func(r int) bool { return r == 0 },
+			}
+			opaque := map[*ssa.Function]bool{pushTo: true, c.Fn("Association.getOrCreateStream"): true}
+			for _, cr := range []int64{0, 1500} {
+				for _, known := range []bool{false, true} {
+					for _, rel := range []int{-1, 0, 1} {
+						key := fmt.Sprintf("accept:credit=%d,highestKnown=%v,tsn-vs-highest=%d", cr, known, rel)
+						outs, und := c.P.PEval(acc, PEConfig{Opaque: opaque, BindVal: func(v ssa.Value) (constant.Value, bool) {
+							switch x := v.(type) {
+							case *ssa.Call:
+								sc := x.Call.StaticCallee()
+								if sc == credit {
+									return constant.MakeInt64(cr), true
+								}
+								if sc == c.Fn("Association.getOrCreateStream") {
+									return peNonNil, true
+								}
+								if sc != nil {
+									if f, ok := snaRel[sc.Name()]; ok && len(x.Call.Args) == 2 {
+										a0, a1 := x.Call.Args[0], x.Call.Args[1]
+										switch {
+										case isTSN(a0) && isLast(a1):
+											return constant.MakeBool(f(rel)), true
+										case isLast(a0) && isTSN(a1):
+											return constant.MakeBool(f(-rel)), true
+										}
+									}
+								}
+							case *ssa.Extract:
+								if x.Index == 1 && IsCallOf(last)(x.Tuple) {
+									return constant.MakeBool(known), true
+								}
+							}
+							return nil, false
+						}})
+						if und != "" || len(outs) == 0 {
+							c.Fail(key, c.P.Pos(acc.Pos()), "UNDECIDED: "+und)
+							continue
+						}
+						want := cr > 0 || (known && rel < 0)
+						why := ""
+						for _, o := range outs {
+							n := len(o.Called("Association.pushPayloadDataToStream"))
+							if want && n != 1 {
+								why = fmt.Sprintf("a path does not pass the chunk to its stream (%d pushes)", n)
+							}
+							if !want && n != 0 {
+								why = "a path passes the chunk to its stream although the window is closed and the chunk fills no gap"
+							}
+						}
+						c.Check(why == "", key, c.P.Pos(acc.Pos()), fmt.Sprintf("delivered=%v on all %d path(s)", want, len(outs)), why+" — with the window closed the missing chunk must still get through or the receiver deadlocks")
+					}
+				}
+			}
 		}})
 }
 
